@@ -60,6 +60,13 @@ let vviews c =
                                  | None -> L [I (int_of_nat i); A "none"]
                                  | Some o -> L [I (int_of_nat i); vop o]) (dag_iter c)) ]
 
+(* ---- fold (coq/circuit/CFold.v): a region is [[qudit [lower upper]] ...] ---- *)
+let region_of (x : v) = List.map (fun e -> match e with
+  | L [I q; L [I lo; I hi]] -> (nat_of_int q, (nat_of_int lo, nat_of_int hi))
+  | _ -> failwith "region") (list_of x)
+(* a negative bound or qudit is rejected by CycleInterval / CircuitLocation before anything happens *)
+let rec has_neg (x : v) = match x with I i -> i < 0 | A _ -> false | L l -> List.exists has_neg l
+
 let cur = ref { nq = O; rads = []; cycles = [] }
 let fin (c, o) = cur := c; vout o ^ " | " ^ show (vcirc c)
 
@@ -90,6 +97,8 @@ let handle line = match parse line with
   | [A "iadd"; c] -> fin (c_iadd !cur (circ_of c))
   | [A "mul"; I n] -> fin (!cur, OkC (c_mul !cur (nat_of_int n)))
   | [A "imul"; I n] -> fin (c_imul !cur (nat_of_int n), OkU)
+  | [A "fold"; r] -> if has_neg r then fin (!cur, Err ValueError) else fin (fold !cur (region_of r))
+  | [A "check_region"; r] -> if has_neg r then "0" else if check_region !cur (region_of r) then "1" else "0"
   | [A "views"] -> show (vviews !cur)
   | [A "iter"] -> show (L (List.map vop (iter_ops !cur.cycles)))
   | [A "reduce"] -> show (L (List.map (fun cy -> L (List.map vop cy)) (reduce !cur)))
